@@ -36,6 +36,46 @@ struct KeyI {
   static long dec(const int &s) { return s; }
 };
 
+// ---- call sites whose argument type differs from KEY: enc() returns the WIDE argument, the members convert it to
+// `const KEY &` at the call.  Argument codes 1..6; 3 and 4 are other spellings of the keys of 1 and 2:
+//   float key, double argument : 0.1, 0.7 (not representable in float), (double)0.1f, (double)0.7f, 1.5, 2.25
+//   short key, int argument    : 1, -2, 65537 (wraps to 1), 65534 (wraps to -2), 5, 300
+//   unsigned char key, int     : 1, 254, 257 (wraps to 1), -2 (wraps to 254), 5, 6
+//   std::string key, const char* : "k1", "k2", the same texts in other buffers, "k5", "k6"
+struct KeyFD {
+  static double enc(long c) { static const double a[7] = {0, 0.1, 0.7, (double)0.1f, (double)0.7f, 1.5, 2.25}; return a[c >= 1 && c <= 6 ? c : 0]; }
+};
+struct KeyHI {
+  static int enc(long c) { static const int a[7] = {0, 1, -2, 65537, 65534, 5, 300}; return a[c >= 1 && c <= 6 ? c : 0]; }
+};
+struct KeyUI {
+  static int enc(long c) { static const int a[7] = {0, 1, 254, 257, -2, 5, 6}; return a[c >= 1 && c <= 6 ? c : 0]; }
+};
+struct KeySC {
+  static const char *enc(long c)
+  {
+    static const char a[7][4] = {"k0", "k1", "k2", "k1", "k2", "k5", "k6"};
+    return a[c >= 1 && c <= 6 ? c : 0];
+  }
+};
+// the canonical code of a stored key = the smallest argument code that converts to it (computed with the real
+// conversion, also printed by `--table` and handed to the model as data)
+template <typename K, typename KW>
+struct Wide {
+  static auto enc(long c) -> decltype(KW::enc(c)) { return KW::enc(c); }
+  static long dec(const K &k)
+  {
+    for (long c = 1; c <= 6; ++c) { K conv = KW::enc(c); if (conv == k) return c; }
+    return 0;
+  }
+  static std::string table()
+  {
+    std::ostringstream o;
+    for (long c = 1; c <= 6; ++c) { K conv = KW::enc(c); o << (c > 1 ? "," : "") << c << "=" << dec(conv); }
+    return o.str();
+  }
+};
+
 static std::vector<std::string> split(const std::string &s, char d)
 {
   std::vector<std::string> r; std::string t; std::istringstream is(s);
@@ -154,6 +194,13 @@ static std::string runP(const std::vector<std::string> &ops)
 int main(int argc, char **argv)
 {
   std::string mode = argc > 1 ? argv[1] : "ii";
+  if (argc > 2 && std::string(argv[2]) == "--table") {
+    if (mode == "fd") std::cout << Wide<float, KeyFD>::table() << "\n";
+    else if (mode == "hi") std::cout << Wide<short, KeyHI>::table() << "\n";
+    else if (mode == "ui") std::cout << Wide<unsigned char, KeyUI>::table() << "\n";
+    else if (mode == "sc") std::cout << Wide<std::string, KeySC>::table() << "\n";
+    return 0;
+  }
   std::string line;
   while (std::getline(std::cin, line)) {
     std::istringstream is(line);
@@ -164,6 +211,13 @@ int main(int argc, char **argv)
       if (mode == "ii") std::cout << runF<int, int, KeyI>(ops) << "\n";
       else if (mode == "ss") std::cout << runF<std::string, std::string, KeyS>(ops) << "\n";
       else std::cout << runF<std::string, std::vector<int>, KeyS>(ops) << "\n";
+    } else if (kind == "C") {          // "C <table> ops": the first token is the conversion table (for the model)
+      if (!ops.empty()) ops.erase(ops.begin());
+      if (mode == "fd") std::cout << runF<float, int, Wide<float, KeyFD>>(ops) << "\n";
+      else if (mode == "hi") std::cout << runF<short, int, Wide<short, KeyHI>>(ops) << "\n";
+      else if (mode == "ui") std::cout << runF<unsigned char, int, Wide<unsigned char, KeyUI>>(ops) << "\n";
+      else if (mode == "sc") std::cout << runF<std::string, int, Wide<std::string, KeySC>>(ops) << "\n";
+      else std::cout << "\n";
     } else if (kind == "P") std::cout << runP(ops) << "\n";
     else std::cout << "\n";
   }
